@@ -99,7 +99,7 @@ func genBookGames(rng *Rng, n int) []bookGame {
 				break
 			}
 			if plies <= 40 && rng.Chance(2) && len(g.moves) > 2 { // an illegal move ends the usable part
-				g.uci = append(g.uci, "e1e8", "e2e4")
+				g.uci = append(g.uci, "a1a1", "e2e4") // from == to: never a legal move (e1e8 can be one: Re1xe8)
 				g.san = append(g.san, "Qxz9", "e4")
 				g.illegal = true
 				break
